@@ -40,8 +40,9 @@ def run (m : Mode) (proto : String) (b : Bytes) : R :=
         (match GV.Model.MsgWrappers.special name with
          | some f =>
            (match f m t with
-            | some v => .ok s!"ok {name}_{render v}"
-            | none => .err)
+            | .val v => .ok s!"ok {name}_{render v}"
+            | .rej => .err
+            | .unknown => .opaque)
          | none => .opaque)
       | some (name, sh) =>
         match decMsg m sh t with
